@@ -211,6 +211,9 @@ func runCase(r *kit.Run, c *kit.Case, sampled *atomic.Int32) {
 	}
 	phase("4-byz-late")
 	if w.p.ExpireReplay {
+		w.resignMu.Lock() // waits for re-submissions in flight; none starts afterwards
+		w.resignClosed = true
+		w.resignMu.Unlock()
 		for _, nd := range w.nodes {
 			if nd.bare || rf.Intn(2) == 0 {
 				continue
